@@ -618,8 +618,8 @@ FIXED_DDL = [
 
 def migration_key(R, schema, exc, case_id):
     """`sdl-migration-fails:alias-of-policied-base:…` only for the root cause that was analysed
-    (an alias WITH A SHAPE over an object type one of whose descendants owns an access policy,
-    failing with "property 'id' does not exist"); any other failure of the migration path gets
+    (an alias over an object type one of whose descendants — or the type itself — owns an access
+    policy, failing with "property 'id' does not exist"); any other failure of the migration path gets
     `sdl-migration-other:…` so that it is reported as new."""
     try:
         cause = "property 'id' does not exist" in str(exc) and _alias_of_policied_base(R, schema)
@@ -640,9 +640,8 @@ def _alias_of_policied_base(R, schema):
     for o in user_objects(R, schema):
         if type(o).__name__ != 'Alias':
             continue
-        e = o.get_expr(schema)
-        if e is None or '{' not in e.text:
-            continue
+        # (any alias that gets a view type of its own: a shape, FILTER, LIMIT …; a bare `select T`
+        # happens to migrate)
         vt = o.get_type(schema)
         bases = set()
         if hasattr(vt, 'get_bases'):
@@ -1448,7 +1447,15 @@ def schema_cases(ctx):
         for i in range(6):
             cases.append((f'scope-gen{i}',
                           c03_exprgen.script_text(c03_exprgen.scope_script(ctx.rng, 2)), 'scope'))
-    n = ctx.budget(12, 200)
+    # dependent-validity schemas: expressions that are well-formed only because of another
+    # declaration's property; owners named to print before / after the type they lean on
+    cases.append(('dep-object-constraint', c03_exprgen.dep_known_bad_schema(), 'dep'))
+    for i in range(ctx.budget(1, 10)):
+        # defaults / rewrites twice, so that each occurs with the owner printed before AND after
+        cases.append((f'dep-positions{i}', c03_exprgen.dep_schema(
+            ctx.rng, positions=list(c03_exprgen.DEP_POS) + ['link-default', 'property-default', 'rewrite'])[0],
+            'dep'))
+    n = ctx.budget(8, 200)
     for i in range(n):
         size = ctx.rng.choice([1, 1, 2, 2, 3, 4] if ctx.quick() else [1, 2, 3, 4, 6, 8])
         sdl, g = gen_schema(ctx.rng, size)
@@ -1503,6 +1510,8 @@ def run(ctx: core.Ctx):
                 forced_ctx[d['sdl']] = []
                 ddl_built = d.get('build') == 'ddl' or d.get('schema') in dict(FIXED_DDL)
                 kind = 'scope' if d.get('build') == 'scope' else ('ddl' if ddl_built else None)
+                if kind is None and str(d.get('schema', '')).startswith('dep-'):
+                    kind = 'dep'
                 cases.append((d.get('schema', 'replay'), d['sdl'], kind))
             if 'modaliases' in d:
                 ma = {(None if k == 'null' else k): v for k, v in d['modaliases'].items()}
@@ -1519,11 +1528,16 @@ def run(ctx: core.Ctx):
     for ci, (tag, sdl, g) in enumerate(cases):
         t0 = time.time()
         build = 'sdl'
+        is_dep = False
         try:
             if g == 'ddl':      # schema built by a DDL script (can do what SDL cannot, e.g. no `default`)
                 orig = R.replay_ddl(sdl, {None: 'default'})
                 g = None
                 build = 'ddl'
+            elif g == 'dep':    # SDL; only the context set differs
+                g = None
+                is_dep = True
+                orig = R.load(sdl)
             elif g == 'scope':  # unqualified DDL applied under the module being populated
                 g = None
                 build = 'scope'
@@ -1650,8 +1664,14 @@ def run(ctx: core.Ctx):
             benign, hostile = contexts_for(ctx.rng, modules, same_named=same_named)
             if tag.startswith('gen') and ctx.quick():
                 hostile = [hostile[ci % len(hostile)]]      # one shadowing context per schema, kinds rotate
+            if g is None and ctx.quick() and tag not in ('witness-two-modules', 'witness-same-short-name') \
+                    and len(hostile) > 1:
+                hostile = [hostile[ci % len(hostile)]]      # the two small witnesses keep every kind
             if build == 'scope' and ctx.quick():
-                benign = [b for b in benign if b[0] != 'identity-alias']
+                benign = [b for b in benign if b[0] in ('default-module', 'other-module')]
+                hostile = []
+            if is_dep and ctx.quick():
+                benign = benign[:2]
                 hostile = []
         known_migration_witness = False
         if tag in MIGRATION_WITNESSES:
@@ -1702,7 +1722,14 @@ def run(ctx: core.Ctx):
                 if migration_broken and lang == 'sdl':
                     detail['skip_corr'] = True      # outcome depends on object ids, nothing to compare
                 elif coarse != 'same':
-                    if tag == 'no-default-module' and lang == 'sdl' and not is_hostile:
+                    if tag == 'dep-object-constraint' and lang == 'sdl' and not is_hostile and coarse == 'error' \
+                            and ('possibly more than one element' in str(det) or 'cardinality mismatch' in str(det)):
+                        key = f'sdl-order-object-constraint:{ctx_key(ma)}'
+                        what = ('the SDL text of DESCRIBE cannot be applied: sdl_to_ddl does not order an OBJECT-level '
+                                '`constraint exclusive on (…)` before a default / function body whose cardinality '
+                                'relies on it (only constraints declared on the pointer itself are pulled in)')
+                        detail['skip_corr'] = True
+                    elif tag == 'no-default-module' and lang == 'sdl' and not is_hostile:
                         key = f'sdl-default-module:{ctx_key(ma)}'
                         what = ('SDL text of DESCRIBE for a schema without the module `default` rebuilds a '
                                 'schema WITH an empty module `default` (apply_sdl always initialises it)')
@@ -1734,7 +1761,7 @@ def run(ctx: core.Ctx):
                                     'objects': len(A.heads), 'sdl_head': sdl[:200]})
 
         # ---- (d) level 1: name lookup on this real schema
-        if ci % 3 == 0 or not ctx.quick():
+        if (ci % 3 == 0 and not is_dep) or not ctx.quick():
             t0 = time.time()
             for line, real, op in name_cases(R, ctx.rng, orig, set(modules), ctx.budget(120, 300)):
                 lines.append(line)
